@@ -5,7 +5,7 @@ import checklib as L
 
 TRUSTED_BASE = [
     "Coq 8.16.1 kernel (coqc; coqchk in the thorough tier); vm_compute used only in non-vacuity Examples and refutation witnesses; no native_compute",
-    "L1 is proved for layouts of v2 batches, compressed or not, with the decompression oracle (C02_batch_decode_exact_v2_partial) , for layouts of uncompressed v0/v1 messages (C02_batch_decode_exact_legacy_uncompressed_partial) and for upgraded partitions, uncompressed v0/v1 followed by v2 (C02_batch_decode_exact_legacy_then_v2_partial), each linked to L2 by a C02_contract_* theorem; for compressed v0/v1 wrappers the link from bytes to the fetch contract rests on the differential run below",
+    "L1 (bytes -> fetch contract, and progress) is proved for every layout with ordered formats whose sizes fit the wire format, every fetch offset >= 0 and legal cut (C02_batch_decode_exact_ordered_partial, C02_progress_ordered_partial, C02_contract_ordered): v2 batches of any codec, plain v0/v1 messages, compressed v0/v1 wrappers, alone or followed by v2; outside these hypotheses (formats not ordered, a cut inside the first batch, connection cut short) the link rests on the differential run below",
     "hand-written models coq/Model/MsgSetReader.v (message_reader.go, read.go, discard.go, batch.go) and coq/Model/ReaderModel.v (reader.go run/initialize/read, FetchMessage, SetOffset; conn.go Seek/ReadBatchWith), tied by the differential run of harness/cmd/c02 (real code, build tag verif) against the OCaml extraction (ExtrOcamlBasic only)",
     "coq/Spec/FetchSpec.v: the broker side (record/batch encodings v0/v1/v2, which batches answer a fetch at offset o, legal cut points) transcribed from the Kafka protocol documents; its encoder is compared byte for byte with the Go reference encoder harness/fetchfake/layout.go on every run; fidelity of both to a real broker is trusted",
     "decompression is an oracle (Section variable decomp with the law decomp c (compress c x) = Some x); the differential feeds the model the (compressed, plain) pairs produced by /repo/compress",
